@@ -115,6 +115,8 @@ namespace occa {
 
           kernelMetadata_t &metadata = metadataMap[func.name()];
           metadata.name = func.name();
+          // Kernels without arguments are validated too (as they are when loaded from build.json)
+          metadata.initialized = true;
 
           int args = (int) func.args.size();
           for (int ai = 0; ai < args; ++ai) {
